@@ -70,13 +70,12 @@ MANIFEST = {
                    "in order, to the names of the abstract message of the succeeded operations, every chunk plain or labels + one "
                    "such pointer, L being exactly the label starts of the chunks, AND the decoded finished message passes the "
                    "specification's own pointer-rule checker (check_qs/check_rrs: every pointer leads strictly before its name to "
-                   "a label start of a name decoded before it); uncompressible RDATA names (SRV, Chaosnet A) are "
+                   "a label start of a name decoded before it; no pointer at all in items written with compression disabled); uncompressible RDATA names (SRV, Chaosnet A) are "
                    "plain, RDATA without name components is raw octets, the regenerated component table has no compressible name "
                    "outside RFC 1035's eleven types (and equals the RFC layout of the specification); with compression disabled a "
                    "name write emits the plain form whatever the hint. The two-name heuristic scan only reports real suffix "
                    "matches and never panics."),
     "level_note": ("Trusted: Coq kernel, extraction, the model's correspondence to the Rust code (differentially tested), the "
-                   "regenerated component tables. The 'disabled mode' statement is per name write (for every state), not restated "
-                   "over the layout. The extracted pointer-rule checker judge13 still runs on the implementation's output."),
+                   "regenerated component tables. The extracted pointer-rule checker judge13 still runs on the implementation's output."),
     "technique": "machine-checked proof in Coq (closure invariant of the label-start set, lock-step scan invariant, layout refinement) + model/implementation correspondence check + extracted pointer-rule oracle",
 }
